@@ -68,7 +68,10 @@ RtVariants(c) ==
     \cup {[cls |-> c, kind |-> x, which |-> "", n |-> 1] : x \in {"foreign_child", "foreign_attr", "text_special", "text_unicode", "text_layout",
                                                                             \* a child the class does not know in the class's *own* namespace; a foreign child that
                                                                             \* itself holds an ordered sequence of children and grandchildren
-                                                                            "foreign_ownns_child", "foreign_nested"}}
+                                                                            "foreign_ownns_child", "foreign_nested",
+                                                                            \* a foreign child whose local name is that of a declared child; text that is not in a
+                                                                            \* Unicode normal form (base letter + combining mark, Angstrom / Ohm sign, Hangul jamo)
+                                                                            "foreign_samelocal", "text_denormal"}}
     \* a tree three levels deep: every declared attribute and child at every level (lists with two members), a foreign
     \* child and a foreign attribute at every level
     \cup {[cls |-> c, kind |-> "deep", which |-> "", n |-> 3]}
@@ -123,11 +126,12 @@ VaVariants(c) ==
              i \in {j \in 1..Len(Children(c)) : Children(c)[j].max >= 1 /\ Children(c)[j].list /\ Children(c)[j].cls \in Classes}}
     \cup UNION {{[cls |-> c, kind |-> "badtype", which |-> Attrs(c)[i].member, how |-> w] : w \in WrongOf(Attrs(c)[i].type)} :
                    i \in 1..Len(Attrs(c))}
-    \cup {[cls |-> c, kind |-> "bad_enum", which |-> Attrs(c)[i].member, how |-> ""] :
-             i \in {j \in 1..Len(Attrs(c)) : Attrs(c)[j].enum # <<>>}}
+    \* a value outside the enumeration; one of its literals in another letter case (enumerations are case-sensitive)
+    \cup {[cls |-> c, kind |-> "bad_enum", which |-> Attrs(c)[i].member, how |-> w] :
+             i \in {j \in 1..Len(Attrs(c)) : Attrs(c)[j].enum # <<>>}, w \in {"", "case"}}
     \* element text of a checked simple type (the table spells the base with or without a prefix, dateTime also in lower case)
     \cup {[cls |-> c, kind |-> "bad_text", which |-> "", how |-> w] : w \in WrongOf(TextType(c))}
-    \cup (IF Table[c].text_enum # <<>> THEN {[cls |-> c, kind |-> "bad_text_enum", which |-> "", how |-> ""]} ELSE {})
+    \cup (IF Table[c].text_enum # <<>> THEN {[cls |-> c, kind |-> "bad_text_enum", which |-> "", how |-> w] : w \in {"", "case"}} ELSE {})
 \* the contract: only the unmodified instance is valid
 MustBeValid(v) == v.kind = "valid"
 
